@@ -213,6 +213,12 @@ pub trait Scenario: Sync {
     }
     /// oracle at the end of the execution
     async fn final_check(&self, w: &Self::World, exec: &Exec) -> Vec<Violation>;
+    /// guard of a parked call: a call whose guard is false is blocked and cannot be released
+    /// (blocking primitives such as a lock that waits for its holder); all unfinished actors
+    /// blocked = deadlock, reported as a hang
+    fn enabled(&self, _w: &Self::World, _actor: usize, _call: &Call) -> bool {
+        true
+    }
     /// fingerprint of the world for the states/transitions count (over-fine is fine)
     fn state_hash(&self, _w: &Self::World) -> u64 {
         0
@@ -381,9 +387,21 @@ pub async fn run_one<S: Scenario>(scn: &S, prefix: &[(usize, usize)], b: &Bounds
             hang = Some(format!("horizon of {} decision points exceeded", b.max_points));
             break;
         }
-        // canonical order
-        let mut ids: Vec<usize> = parked.keys().cloned().collect();
-        let running_still_enabled = running.map(|r| parked.contains_key(&r)).unwrap_or(false);
+        // canonical order over the parked calls whose guard holds (e.g. a lock acquire is enabled
+        // only while the lock is free); parked calls with a false guard are blocked
+        let mut ids: Vec<usize> = parked
+            .iter()
+            .filter(|(a, (c, _))| scn.enabled(&world, **a, c))
+            .map(|(a, _)| *a)
+            .collect();
+        if ids.is_empty() {
+            hang = Some(format!(
+                "deadlock: every unfinished actor is blocked: {:?}",
+                parked.iter().map(|(a, (c, _))| format!("a{a} {}", c.norm())).collect::<Vec<_>>()
+            ));
+            break;
+        }
+        let running_still_enabled = running.map(|r| ids.contains(&r)).unwrap_or(false);
         if running_still_enabled {
             let r = running.unwrap();
             ids.retain(|x| *x != r);
